@@ -396,6 +396,48 @@ def run_headers(job):
     return out
 
 
+def run_resolve(job):
+    """plug-in resolution history in this interpreter: one observation per op
+         {"op":"names","pkg":P}            -> {"names":[...]}
+         {"op":"exists"|"get"|"load","pkg":P,"name":N} -> {"found": true|false} | {"other": "Exc: text"}
+         {"op":"parse_file","parser":..,"file":..,"args":{..}} -> {"digest":..} | {"found": false} | {"digest": "EXC:.."}"""
+    import importlib
+    from midgard.dev import plugins
+    from midgard.dev.exceptions import UnknownPluginError
+    out = []
+    for o in job["ops"]:
+        kind = o["op"]
+        try:
+            with quiet():
+                if kind == "names":
+                    out.append({"names": list(importlib.import_module(o["pkg"]).names())})
+                elif kind == "exists":
+                    out.append({"found": bool(plugins.exists(o["pkg"], o["name"]))})
+                elif kind == "get":
+                    plug = plugins.get(o["pkg"], o["name"])
+                    out.append({"found": callable(plug.function)})
+                elif kind == "load":
+                    out.append({"found": plugins.load(o["pkg"], o["name"]) == o["name"]})
+                elif kind == "parse_file":
+                    try:
+                        importlib.import_module("midgard.parsers")
+                        plugins.load("midgard.parsers", o["parser"])
+                    except UnknownPluginError:
+                        out.append({"found": False})
+                        continue
+                    rec = run_ops([dict(o, i=0)])[0]
+                    out.append({"digest": rec["digest"], "exc": rec.get("exc")})
+                else:
+                    raise ValueError(kind)
+        except UnknownPluginError:
+            out.append({"found": False})
+        except BaseException as e:  # noqa
+            if isinstance(e, KeyboardInterrupt):
+                raise
+            out.append({"other": f"{type(e).__name__}: {str(e)[:200]}"})
+    return out
+
+
 def main():
     mode = sys.argv[1]
     job = json.loads(sys.argv[2]) if len(sys.argv) > 2 and sys.argv[2] != "-" else json.loads(sys.stdin.read())
@@ -405,6 +447,8 @@ def main():
         res = run_ops([dict(op="parse_file", i=0, parser=job["parser"], file=job["file"], args=job.get("args"))])[0]
     elif mode == "history":
         res = run_ops(job["ops"])
+    elif mode == "resolve":
+        res = run_resolve(job)
     elif mode == "headers":
         res = run_headers(job)
     elif mode == "plugins":
